@@ -659,9 +659,19 @@ def enumerate_as(ctx, tdir, scs, user, th, model_steps, classes, stats):
     skipped = 0
     with cf.ThreadPoolExecutor(max_workers=vlib.NPROC) as ex:
         futs = [(j, ex.submit(run_case, tdir, j[0], j[1], j[2], j[3], j[4], user=user)) for j in jobs]
+        cut = False
         for j, f in futs:
             nme, k, ka, ck, cka = j
-            if time.time() > deadline and f.cancel():
+            if not cut:
+                try:
+                    f.result(timeout=max(0.0, deadline - time.time()))
+                except cf.TimeoutError:
+                    pass
+                if time.time() >= deadline:
+                    cut = True
+                    for _, g in futs:
+                        g.cancel()          # everything that has not started yet
+            if f.cancelled():
                 skipped += 1
                 continue
             res = f.result()
